@@ -242,8 +242,18 @@ rotate(Array<T, 3> const& dir, Array<T, 3> const& rot)
     else if (sintheta > 0)
     {
         // Avoid catastrophic roundoff error by normalizing x/y components
-        cosphi = rot[X] / std::sqrt(ipow<2>(rot[X]) + ipow<2>(rot[Y]));
-        sinphi = std::sqrt(1 - ipow<2>(cosphi));
+        T const hyp = std::sqrt(ipow<2>(rot[X]) + ipow<2>(rot[Y]));
+        if (hyp > 0)
+        {
+            cosphi = rot[X] / hyp;
+            sinphi = std::sqrt(1 - ipow<2>(cosphi));
+        }
+        else
+        {
+            // Exactly along z but |z| rounded just below 1: phi is arbitrary
+            cosphi = 1;
+            sinphi = 0;
+        }
     }
     else
     {
